@@ -471,9 +471,127 @@ class C10Engine(Engine):
         return viol
 
     # ------------------------------------------------------------------
+    PREP = r"""
+import sys, warnings
+warnings.simplefilter("ignore")
+sys.path.insert(0, sys.argv[1])
+from wormhole_mailbox_server import database, server
+n_mb, n_msg, size, t0 = [int(x) for x in sys.argv[2].split(",")]
+import random, os, itertools
+random.seed(n_mb * 1000 + n_msg)           # the allocator's choices: the same store every time
+_ctr = itertools.count()
+server.os = type("O", (), {"urandom": staticmethod(lambda n: (next(_ctr)).to_bytes(n, "big"))})
+db = database.create_or_upgrade_channel_db(sys.argv[3])
+srv = server.make_server(db)
+for a in range(2):
+    app = srv.get_app("app%d" % a)
+    for i in range(n_mb):
+        name = app.allocate_nameplate("s1", t0 + i)
+        mid = app.claim_nameplate(name, "s1", t0 + i)
+        mb = app.open_mailbox(mid, "s1", t0 + i)
+        app.claim_nameplate(name, "s2", t0 + i + 1)
+        app.open_mailbox(mid, "s2", t0 + i + 1)
+        for j in range(n_msg):
+            mb.add_message(server.SidedMessage(side="s1", phase="p%d" % j, body="%04d" % j + "ab" * (size // 2),
+                                               server_rx=t0 + i + 2, msg_id="m%d" % j))
+db.close()
+"""
+    SWEEP = r"""
+import sys, warnings
+warnings.simplefilter("ignore")
+sys.path.insert(0, sys.argv[1])
+from wormhole_mailbox_server import database, server
+n_mb, n_msg, size, t0 = [int(x) for x in sys.argv[2].split(",")]
+db = database.create_or_upgrade_channel_db(sys.argv[3])
+srv = server.make_server(db)
+now = t0 + 5000
+srv.prune_all_apps(now, now - 660)
+db.close()
+"""
+
+    def sweep_killed_anywhere(self, seed, facts):
+        """(e) a real server process that runs the expiry sweep on real files is killed (as by kill -9)
+        right before each of its file-system operations in turn; what it leaves must open, pass
+        the integrity check and hold, per app, either everything or nothing of that app"""
+        from . import dbsim
+        from . import seams
+        import subprocess
+        import sys
+        viol = []
+        big = (seed % 500 == 0)
+        shape = (8, 100, 3400, 1700000000) if big else (2, 3, 40, 1700000000)
+        arg = ",".join(str(x) for x in shape)
+        root = dbsim.scratch_root()
+        seed_dir = os.path.join(root, "c10e-%d-%d" % (os.getpid(), seed))
+        os.makedirs(seed_dir, exist_ok=True)
+        seed_db = os.path.join(seed_dir, "relay.sqlite")
+        try:
+            r = subprocess.run([sys.executable, "-c", self.PREP, os.path.join(seams.REPO, "src"), arg, seed_db],
+                               capture_output=True, timeout=300, env=dict(os.environ, PYTHONHASHSEED="0"))
+            if r.returncode != 0:
+                raise RuntimeError("C10 (e): could not prepare the store: %s" % r.stderr.decode("utf-8", "replace")[-400:])
+            con = sqlite3.connect(seed_db)
+            pre = alpha.read_channel(con)
+            con.close()
+            per_app = {a: len([m for m in pre.mailboxes if m.app == a]) for a in pre.apps()}
+            n = [0]
+
+            def make_dir(tag):
+                n[0] += 1
+                dd = os.path.join(root, "c10e-%d-%d-%s" % (os.getpid(), seed, tag))
+                os.makedirs(dd, exist_ok=True)
+                shutil.copyfile(seed_db, os.path.join(dd, "relay.sqlite"))
+                return dd, os.path.join(dd, "relay.sqlite")
+
+            def judge(dd, label):
+                pth = os.path.join(dd, "relay.sqlite")
+                try:
+                    con = sqlite3.connect(pth)
+                    try:
+                        ok = con.execute("PRAGMA integrity_check").fetchall()
+                        if ok != [("ok",)]:
+                            return "%s: integrity check of what is left: %r" % (label, ok[:3])
+                        post = alpha.read_channel(con)
+                    finally:
+                        con.close()
+                except Exception as e:
+                    return "%s: what is left cannot be read: %s: %s" % (label, type(e).__name__, e)
+                bad = integrity(post)
+                if bad:
+                    return "%s: %s" % (label, bad[0])
+                for a, cnt in sorted(per_app.items()):
+                    left = [m for m in post.mailboxes if m.app == a]
+                    msgs = sum(len(m.msgs) for m in left)
+                    want = sum(len(m.msgs) for m in pre.mailboxes if m.app == a)
+                    if not ((len(left) == cnt and msgs == want) or (len(left) == 0 and msgs == 0)):
+                        return ("%s: app %r is left with %d of %d mailboxes and %d of %d messages (the sweep of one app "
+                                "is one transaction)" % (label, a, len(left), cnt, msgs, want))
+                    if len(left) == 0 and (post.names(a) or [o for o in post.orphan_msgs if o[0] == a]):
+                        return "%s: app %r has no mailboxes but nameplates or messages are left" % (label, a)
+                return None
+            nops, res = dbsim.syscall_kill_points(arg, make_dir, judge, threads=8, script=self.SWEEP, sample=200)
+            if nops == 0:
+                facts["extra"]["sweep_kill_skipped"] = 1
+            else:
+                ops, problems = res
+                facts["extra"]["sweep_syscall_kill_points"] = facts["extra"].get("sweep_syscall_kill_points", 0) + min(nops, 200)
+                facts["counters"]["fault_crash_syscall"] = facts["counters"].get("fault_crash_syscall", 0) + min(nops, 200)
+                if big:
+                    facts["extra"]["sweep_kill_large_transaction"] = 1
+                for (k, text) in problems[:1]:
+                    viol.append(self.v("sweep-killed-at-any-syscall", text))
+        finally:
+            shutil.rmtree(seed_dir, ignore_errors=True)
+        return viol
+
     def evaluate(self, seed, tier):
         spec = self.gen_spec(seed)
         viol, facts = self.explore(spec)
+        if not viol and seed % 100 == 0:
+            vs = self.sweep_killed_anywhere(seed, facts)
+            if vs:
+                viol += vs
+                spec = dict(spec, steps=[], sweep_kill=seed)
         s = {"seed": seed, "viol": viol, "hash": steps_hash(spec["steps"], spec["cfg"]),
              "nontrivial": bool(facts.get("nontrivial")), "counters": facts["counters"], "probes": facts["probes"],
              "events": facts["events"], "steps": len(spec["steps"]), "sim": facts["sim"], "shapes": set(),
@@ -483,10 +601,14 @@ class C10Engine(Engine):
         return s
 
     def replay(self, spec):
+        if spec.get("sweep_kill") is not None:
+            return self.sweep_killed_anywhere(spec["sweep_kill"], {"counters": {}, "extra": {}})
         return self.explore(spec)[0]
 
     def minimise(self, spec, v):
         clause = v["clause"]
+        if spec.get("sweep_kill") is not None:
+            return spec
 
         def fails(steps):
             try:
@@ -502,4 +624,7 @@ class C10Engine(Engine):
         return {"crash_points_seen": e.get("image_points", 0), "distinct_images": e.get("distinct_images", 0),
                 "images_explored": e.get("images_explored", 0),
                 "images_between_commits_of_one_operation": e.get("images_between_commits", 0),
-                "images_with_hot_journal": e.get("images_with_hot_journal", 0)}
+                "images_with_hot_journal": e.get("images_with_hot_journal", 0),
+                "new_clients_served_on_images": e.get("new_clients_served", 0),
+                "sweep_syscall_kill_points": e.get("sweep_syscall_kill_points", 0),
+                "sweep_kill_with_transaction_larger_than_page_cache": e.get("sweep_kill_large_transaction", 0)}
